@@ -38,6 +38,14 @@ def run(ctx):
     ctx.floor('R2.5', 'row_groups/num_rows sites in writer', n, 4)
     n = meta_rules.filepath_rule(ctx, 'R2.6')
     ctx.floor('R2.6', 'file_path stores', n, 5)
+    # shared rules: the null count of a chunk (C04), the in-place footer rewrite (C16) and the schema
+    # annotation of every dtype (C01) are all part of "the metadata describes exactly the bytes present"
+    from . import c04, c16, c01
+    c04.r41(ctx, ctx.repo['writer'])
+    c16.r161(ctx, ctx.repo['writer'])
+    c01.r11(ctx)
+    from . import callsigs as _cs
+    _cs.general_rules(ctx, 'R2', ['writer'])
 
 
 # ---------------------------------------------------------------------------
